@@ -6,7 +6,7 @@ import numpy as np
 
 import lazy_dataset
 from .. import hist
-from ..workload import src_ids, norm as W_norm
+from ..workload import src_ids, norm as W_norm, close_iter as _close_iter
 
 PROP = 'C12'
 LEVEL = 'exploration'
@@ -261,7 +261,7 @@ def _run(case, finish):
         if finish is not None:
             for i_ in range(nit):
                 if its[i_] is not None and not done[i_]:
-                    its[i_].close()
+                    _close_iter(its[i_])
             its = [x if d_ else x for x, d_ in zip(its, done)]
             finish()
         overlap = False
